@@ -108,7 +108,7 @@ def _peers(ctx, names):
     return cl, sv, saved
 
 
-def _exchange(ctx, ch_x, ch_y, m, n, twin, same_ids, tag):
+def _exchange(ctx, ch_x, ch_y, m, n, twin, same_ids, tag, resend=True):
     for (snd, rcv, d) in ((ch_x, ch_y, tag), (ch_y, ch_x, tag[::-1])):
         _AesStub.calls = []
         pkt = snd.encrypt(m)
@@ -117,6 +117,13 @@ def _exchange(ctx, ch_x, ch_y, m, n, twin, same_ids, tag):
         ctx.require(checksum == sha256(m), 'packet carries the SHA-256 of the plaintext')
         ctx.require(key_id == rcv.server_aes_key_id, 'packet carries the key identifier the peer expects')
         ctx.require(key_id == sha256(b'\xd4\xad\xbc-' + snd.enc_key), 'key identifier = sha256(magic + key)')
+        # the same plaintext sent again (a resend whose first copy was lost): the packet is the same and still decrypts;
+        # a packet delivered twice decrypts twice
+        if resend:
+            pkt2 = snd.encrypt(m)
+            ctx.require(pkt2 == pkt, 'sending the same plaintext again gives the same packet')
+            back = rcv.decrypt(pkt2[64:], pkt2[32:64])
+            ctx.require(back == m, 'the peer decrypts a resent packet')
         back = rcv.decrypt(ct, checksum)
         if twin == 'wrongdir':
             back = snd.decrypt(ct, checksum) if n else b'x'
@@ -142,13 +149,13 @@ def h_channel(ctx, n, twin=None, order=None, third=False):
     try:
         ch_a = CI.AdnlChannel(cl['a'], sv['b'], ids['a'], ids['b'])          # A's side: local id A, peer id B
         ch_b = CI.AdnlChannel(cl['b'], sv['a'], ids['b'], ids['a'])          # B's side
-        _exchange(ctx, ch_a, ch_b, m, n, twin, ids['a'] == ids['b'], 'AB')
+        _exchange(ctx, ch_a, ch_b, m, n, twin, ids['a'] == ids['b'], 'AB', resend=not third)
         if third:
             ch_c = CI.AdnlChannel(cl['c'], sv['b'], ids['c'], ids['b'])
             ch_b2 = CI.AdnlChannel(cl['b'], sv['c'], ids['b'], ids['c'])
-            _exchange(ctx, ch_c, ch_b2, m, n, twin, ids['c'] == ids['b'], 'CB')
+            _exchange(ctx, ch_c, ch_b2, m, n, twin, ids['c'] == ids['b'], 'CB', resend=False)
             ch_a2 = CI.AdnlChannel(cl['a'], sv['b'], ids['a'], ids['b'])
-            _exchange(ctx, ch_a2, ch_b, m, n, twin, ids['a'] == ids['b'], 'AB')
+            _exchange(ctx, ch_a2, ch_b, m, n, twin, ids['a'] == ids['b'], 'AB', resend=False)
     finally:
         CI.x25519, CI.AES = saved
 
@@ -380,7 +387,7 @@ def instances(tier, seed):
     for n in ((0, 1, 16, 33) if tier == 'quick' else (0, 1, 2, 15, 16, 17, 31, 32, 33, 63, 64)):
         yield 'h_channel', dict(n=n)
     yield 'h_channel', dict(n=5, order='eq')
-    yield 'h_channel', dict(n=7, third=True)
+    yield 'h_channel', dict(n=3, third=True)
 
 
     for n in (0, 1, 32, 45):
